@@ -322,9 +322,16 @@ def tainted_mask(reqs, model, bounds):
     mask = [False] * len(reqs)
     for lo, hi in bounds:
         tainted = set()
+        registering = set()     # global functions whose script registers something (a side effect outside the context)
+        lost = False            # the model stopped inside a program that may have gone on to register: registries differ
         for i in range(lo, hi):
             k, second = kind_of(reqs[i])
             f = (reqs[i][4:] if second else reqs[i]).split("\t")
+            if lost:
+                mask[i] = True
+                continue
+            if k == "REG" and f[1] == "fn":
+                (registering.add if "(reg " in f[-1] else registering.discard)(unhx(f[2]))
             if k == "CTX":
                 tainted.discard((second, f[1]))
             elif k in ("EXEC", "GETVAR"):
@@ -333,6 +340,9 @@ def tainted_mask(reqs, model, bounds):
                     mask[i] = True
                 elif "UNMODELLED" in model[i]:
                     tainted.add(key)
+                    text = unhx(f[2]) if k == "EXEC" else ""
+                    if any(nm + "(" in text.replace(" (", "(") for nm in registering):
+                        lost = True
     return mask
 
 
